@@ -94,7 +94,9 @@ def replay_mask(shape, quat, axis, entry="model"):
         prod = out[0] * out[1]
         ref = prod <= 0
         # bins whose product is within rounding of zero are not compared
-        sure = np.abs(prod) > 1e-9
+        # ... except bins that lie exactly on both limiting planes in floating point as well (the DC bin for every orientation, the tilt-axis line of an
+        # un-rotated molecule: every term of both dot products is an exact zero): they belong to the sampled region (product <= 0)
+        sure = (np.abs(prod) > 1e-9) | ((out[0] == 0) & (out[1] == 0))
         diff = (mask.astype(bool) != ref) & sure
         return bool(diff.any()), {"shape": list(shape), "quat": [float(c) for c in quat], "tilt": [tmin, tmax], "axis": axis, "entry": entry,
                                    "n_wrong_bins": int(diff.sum()), "of": int(mask.size), "first_wrong": [int(v) for v in np.argwhere(diff)[0]] if diff.any() else None}
